@@ -109,6 +109,8 @@ def run(ctx):
                      "an expired timer sends its event only if it was not cancelled, the interpreter is running and the owning state is still active" if ok else
                      f"the send of the expired timer is guarded by {at}: it needs 'not cancelled' ({not_cancelled}), 'status is running' ({running}) and 'the owner is "
                      f"still active' ({owner}) as separate positive tests - otherwise a delayed transition fires after its state was left or after stop()", y)
+    # ---- R11 a delay of 0 is a delay ----------------------------------------------------------------------------
+    shared.none_is_the_only_absence(ctx, "R11", [("BaseInterpreter", "_resolve_delay", "spec"), ("BaseInterpreter", "_resolve_delay", "named"), ("BaseInterpreter", "_schedule_state_tasks", "resolved_ms")])
     # ---- R7 several delays on one state are independent: nothing but 'continue' (or a raise) leaves an arming loop early ----
     for l in [x for x in own_nodes(sched.node) if isinstance(x, ast.For) and (".after" in norm(x.iter) or ".invoke" in norm(x.iter))]:
         early = [y for st_ in l.body for y in ast.walk(st_) if isinstance(y, (ast.Break, ast.Return))
